@@ -275,6 +275,11 @@ def run(spec):
             elif kind == 'move':
                 there = set((node.get(op[3]) or {}).keys())
                 okop = key not in here and key in there
+            elif kind == 'move_regen':
+                there = set((node.get(op[3]) or {}).keys())
+                okop = key in here and key in there
+            elif kind == 'gen_delete':
+                okop = key not in here
             else:
                 continue
             V.check('structural_ops_carried_out', okop,
